@@ -216,7 +216,10 @@ class SetEncoder(encoder.SequenceEncoder):
                 except KeyError:
                     raise error.PyAsn1Error('Component name "%s" not found in %r' % (namedType.name, value))
 
-                if namedType.isDefaulted and component == namedType.asn1Object:
+                if namedType.isDefaulted and (
+                        component == namedType.asn1Object or
+                        encodeFun(component, namedType.asn1Object, **options) ==
+                        encodeFun(namedType.asn1Object, **options)):
                     continue
 
                 compsMap[id(component)] = namedType
